@@ -424,7 +424,8 @@ impl Add<Duration> for Date {
     ///
     /// Only adds full days (`86 400` seconds) to [`Date`]. Any additional duration will be ignored.
     fn add(self, rhs: Duration) -> Self::Output {
-        let days = self.days + (rhs.as_secs() / SECS_PER_DAY_U64) as i32;
+        let days = i32::try_from(self.days as i128 + (rhs.as_secs() / SECS_PER_DAY_U64) as i128)
+            .unwrap_or_else(|_| panic!("Addition would result into an out of range date"));
         Self { days }
     }
 }
@@ -444,7 +445,8 @@ impl Sub<Duration> for Date {
     ///
     /// Only removes full days (`86 400` seconds) to [`Date`]. Any additional duration will be ignored.
     fn sub(self, rhs: Duration) -> Self::Output {
-        let days = self.days - (rhs.as_secs() / SECS_PER_DAY_U64) as i32;
+        let days = i32::try_from(self.days as i128 - (rhs.as_secs() / SECS_PER_DAY_U64) as i128)
+            .unwrap_or_else(|_| panic!("Subtraction would result into an out of range date"));
         Self { days }
     }
 }
